@@ -31,7 +31,7 @@ func (c schedCall) call(text BS) Call {
 		return Call{API: "json", Doc: text, Form: "string"}
 	case "yaml":
 		return Call{API: "yaml", Doc: text, Form: "string"}
-	case "ssnap":
+	case "ssnap", "shared":
 		return Call{API: "ssnap", Vals: []Val{strVal(string(text))}}
 	}
 	return Call{API: "snap", Vals: []Val{strVal(string(text))}}
@@ -79,6 +79,30 @@ type schedCase struct {
 	// FreshDir: nothing exists yet - the snapshot directory lies three missing levels deep (only for scenarios without
 	// pre-existing entries or standalone files)
 	FreshDir bool `json:"fresh_directory,omitempty"`
+	// SharedPre: calls with API "shared" are standalone calls of DIFFERENT tests through one Config with the explicit
+	// Filename "golden" - the tests share one ordinal sequence, so which call gets which file depends on the order. SharedPre
+	// files golden_1..golden_<SharedPre> exist beforehand, all holding sharedSame (then every shared call passes sharedSame);
+	// with SharedPre == 0 every shared call is a "create" with a value of its own.
+	SharedPre int `json:"shared_filename_preexisting,omitempty"`
+}
+
+const sharedSame = "the same golden text"
+
+func (c schedCase) hasShared() bool {
+	for _, t := range c.Tests {
+		for _, call := range t.Calls {
+			if call.API == "shared" {
+				return true
+			}
+		}
+	}
+	return c.SharedPre > 0
+}
+
+func (c schedCase) sharedSpec() CfgSpec {
+	s := c.dirSpec()
+	s.Filename = "golden"
+	return s
 }
 
 // ordinals: for every call of the test its ordinal among the calls of its kind (multi-entry calls share the file's
@@ -87,6 +111,9 @@ func (t schedTest) ordinals() []int {
 	out := make([]int, len(t.Calls))
 	m, s := 0, 0
 	for i, c := range t.Calls {
+		if c.API == "shared" {
+			continue // the ordinal depends on the order of the calls of all tests: judged as a set (judgeShared)
+		}
 		if c.API == "ssnap" {
 			s++
 			out[i] = s
@@ -181,7 +208,7 @@ func (c schedCase) initialEntries() []Entry {
 	for _, t := range c.Tests {
 		ord := t.ordinals()
 		for k, call := range t.Calls {
-			if call.API == "ssnap" {
+			if call.API == "ssnap" || call.API == "shared" {
 				continue
 			}
 			switch call.Kind {
@@ -227,6 +254,9 @@ func runSched(c schedCase, pre []vsched.Preempt, record bool) (schedObs, error) 
 		for p, data := range c.standaloneFiles(true) {
 			os.WriteFile(filepath.Join(root, p), []byte(data), 0o644)
 		}
+		for k := 1; k <= c.SharedPre; k++ {
+			os.WriteFile(filepath.Join(root, c.sharedSpec().standalonePath("", k, false)), []byte(sharedSame), 0o644)
+		}
 	}
 	newProcess(Mode{})
 	upd, noUpd := spec, spec
@@ -234,12 +264,20 @@ func runSched(c schedCase, pre []vsched.Preempt, record bool) (schedObs, error) 
 	cfgDefault, cfgUpd, cfgNo := spec.build(root), upd.build(root), noUpd.build(root)
 	soloOf := func(s CfgSpec) *Config { s.Filename = ""; return s.build(root) }
 	soloDefault, soloUpd, soloNo := soloOf(spec), soloOf(upd), soloOf(noUpd)
+	sharedCfg := c.sharedSpec().build(root)
 	obs := schedObs{outcomes: make([][]string, len(c.Tests))}
 	tasks := make([]func(), len(c.Tests))
+	// shared-Filename scenarios: every test ends after the last call of the scenario (the end of ANY test resets the ordinal
+	// sequence of the shared name - with test ends in between, which file a call addresses depends on the order by design)
+	lateFinish := c.hasShared()
+	var late []func()
 	for i, t := range c.Tests {
 		i, t := i, t
 		tasks[i] = func() {
 			ft := newFakeT(t.Name)
+			if lateFinish {
+				late = append(late, ft.finish)
+			}
 			for _, call := range t.Calls {
 				cfg := cfgDefault
 				switch call.Kind {
@@ -252,6 +290,8 @@ func runSched(c schedCase, pre []vsched.Preempt, record bool) (schedObs, error) 
 					cfg = map[*Config]*Config{cfgDefault: soloDefault, cfgUpd: soloUpd, cfgNo: soloNo}[cfg]
 				}
 				switch call.API {
+				case "shared":
+					sharedCfg.MatchStandaloneSnapshot(ft, string(call.Val))
 				case "ssnap":
 					cfg.MatchStandaloneSnapshot(ft, string(call.Val))
 				case "json":
@@ -277,10 +317,15 @@ func runSched(c schedCase, pre []vsched.Preempt, record bool) (schedObs, error) 
 				}
 				obs.outcomes[i] = append(obs.outcomes[i], o)
 			}
-			ft.finish()
+			if !lateFinish {
+				ft.finish()
+			}
 		}
 	}
 	obs.sess = vsched.Run(tasks, pre, c.Order, record)
+	for _, f := range late {
+		f()
+	}
 	obs.final = vhReadFile(file)
 	obs.solo = map[string]string{}
 	for p, f := range snapDir(root) {
@@ -306,6 +351,9 @@ func judgeSched(c schedCase, obs schedObs) error {
 		}
 		for k, call := range t.Calls {
 			got := obs.outcomes[i][k]
+			if call.API == "shared" {
+				continue // judgeShared
+			}
 			if strings.HasPrefix(got, oFailed) {
 				got = oFailed
 			}
@@ -324,7 +372,7 @@ func judgeSched(c schedCase, obs schedObs) error {
 	for _, t := range c.Tests {
 		ord := t.ordinals()
 		for k, call := range t.Calls {
-			if call.API == "ssnap" {
+			if call.API == "ssnap" || call.API == "shared" {
 				continue
 			}
 			id := entryID(t.Name, ord[k])
@@ -338,6 +386,13 @@ func judgeSched(c schedCase, obs schedObs) error {
 	}
 	// standalone files: the k-th standalone call of a test owns file k, whatever the other tests do meanwhile
 	wantSolo := c.standaloneFiles(false)
+	sharedFiles, err := judgeShared(c, obs, trace)
+	if err != nil {
+		return err
+	}
+	for p, data := range sharedFiles {
+		wantSolo[p] = data
+	}
 	for p, data := range wantSolo {
 		got, ok := obs.solo[p]
 		if !ok {
@@ -377,6 +432,90 @@ func judgeSched(c schedCase, obs schedObs) error {
 		}
 	}
 	return nil
+}
+
+// judgeShared: standalone calls of different tests through one explicit Filename share the ordinal sequence golden_1,
+// golden_2, ... Whatever the interleaving, a serial execution (calls are the atoms; the calls of one test in their order)
+// hands out every ordinal 1..N exactly once. Fresh (SharedPre == 0, values all different): every call reports "added", file k
+// exists for every k <= N, every value sits in exactly one file, the values of one test in files of increasing ordinal.
+// Pre-existing (every value and every file = sharedSame): exactly min(N, SharedPre) calls pass, the others report "added".
+// Returns the files this accounts for.
+func judgeShared(c schedCase, obs schedObs, trace string) (map[string]string, error) {
+	files := map[string]string{}
+	type sc struct {
+		test, k int
+		val     string
+	}
+	var calls []sc
+	for i, t := range c.Tests {
+		for k, call := range t.Calls {
+			if call.API == "shared" {
+				calls = append(calls, sc{i, k, string(call.Val)})
+			}
+		}
+	}
+	n := len(calls)
+	if n == 0 && c.SharedPre == 0 {
+		return files, nil
+	}
+	spec := c.sharedSpec()
+	passed, added := 0, 0
+	for _, call := range calls {
+		got := obs.outcomes[call.test][call.k]
+		switch {
+		case got == oAdded:
+			added++
+		case got == oPassed && c.SharedPre > 0:
+			passed++
+		default:
+			return nil, fmt.Errorf("%s call %d (standalone through the shared Filename, %d files exist beforehand): outcome %q, which no serial order of the calls gives; schedule: %s",
+				c.Tests[call.test].Name, call.k+1, c.SharedPre, got, trace)
+		}
+	}
+	wantPassed := c.SharedPre
+	if n < wantPassed {
+		wantPassed = n
+	}
+	if passed != wantPassed || added != n-wantPassed {
+		return nil, fmt.Errorf("%d calls through the shared Filename with %d files beforehand: %d passed and %d added, every serial order gives %d and %d (an ordinal was handed out twice or skipped); schedule: %s",
+			n, c.SharedPre, passed, added, wantPassed, n-wantPassed, trace)
+	}
+	total := n
+	if c.SharedPre > total {
+		total = c.SharedPre
+	}
+	where := map[string][]int{}
+	for k := 1; k <= total; k++ {
+		p := spec.standalonePath("", k, false)
+		got, ok := obs.solo[p]
+		if !ok {
+			return nil, fmt.Errorf("%d calls through the shared Filename (%d files beforehand) must leave %s_1 .. _%d, but %q is missing (ordinal %d was never handed out); files: %v; schedule: %s",
+				n, c.SharedPre, spec.Filename, total, p, k, vhKeysOfStrMap(obs.solo), trace)
+		}
+		files[p] = got
+		where[got] = append(where[got], k)
+	}
+	if c.SharedPre > 0 {
+		for p, got := range files {
+			if got != sharedSame {
+				return nil, fmt.Errorf("shared standalone file %q holds %q, want %q; schedule: %s", p, vhClip(got), sharedSame, trace)
+			}
+		}
+		return files, nil
+	}
+	last := map[int]int{}
+	for _, call := range calls {
+		ks := where[call.val]
+		if len(ks) != 1 {
+			return nil, fmt.Errorf("value %q of %s (call %d through the shared Filename) is in files %v, a serial execution stores it in exactly one; schedule: %s",
+				vhClip(call.val), c.Tests[call.test].Name, call.k+1, ks, trace)
+		}
+		if ks[0] <= last[call.test] {
+			return nil, fmt.Errorf("%s: its calls through the shared Filename got ordinals out of call order (%d after %d); schedule: %s", c.Tests[call.test].Name, ks[0], last[call.test], trace)
+		}
+		last[call.test] = ks[0]
+	}
+	return files, nil
 }
 
 func vhKeysOfStrMap(m map[string]string) []string {
@@ -739,6 +878,121 @@ func vhIndexOf(ss []string, s string) int {
 // C03's concurrency clause ("... no matter which other tests ran before it, run concurrently ..."; "creating or rewriting one
 // slot never changes the value that any other slot replays as"): the same generated scenarios x schedules, judged by the same
 // serial prediction - every call addresses its own slot and no slot is lost, duplicated or reverted by another test's write.
+// Standalone calls of parallel tests through ONE explicit Filename (a shared golden-file Config): the tests share the ordinal
+// sequence of that name. Generated: 2-4 tests, 1-3 such calls each, optionally mixed with multi-entry calls of their own,
+// either from nothing (all values different) or next to 1-3 existing files (all values equal), 0-3 preemptions.
+func genSchedShared(t *rapid.T) schedCase {
+	c := schedCase{}
+	n := rapid.IntRange(2, 4).Draw(t, "ntests")
+	names := genNamePool(t, n)
+	if rapid.IntRange(0, 2).Draw(t, "pre") == 0 {
+		c.SharedPre = rapid.IntRange(1, 3).Draw(t, "npre")
+	}
+	for i := 0; i < n; i++ {
+		st := schedTest{Name: names[i]}
+		for k, m := 0, rapid.IntRange(1, 3).Draw(t, "ncalls"); k < m; k++ {
+			if rapid.IntRange(0, 3).Draw(t, "mixed") == 0 {
+				st.Calls = append(st.Calls, schedCall{Kind: "create", Val: BS(fmt.Sprintf("entry %d.%d", i, k))})
+			}
+			val := fmt.Sprintf("golden value of test %d call %d", i, k)
+			if rapid.IntRange(0, 5).Draw(t, "big") == 0 {
+				val += "\n" + schedBig1
+			}
+			kind := "create"
+			if c.SharedPre > 0 {
+				val, kind = sharedSame, "match"
+			}
+			st.Calls = append(st.Calls, schedCall{Kind: kind, API: "shared", Val: BS(val)})
+		}
+		c.Tests = append(c.Tests, st)
+	}
+	c.FreshDir = c.SharedPre == 0 && rapid.Bool().Draw(t, "fresh_dir")
+	for i := rapid.IntRange(0, 3).Draw(t, "npreempt"); i > 0; i-- {
+		c.Preempts = append(c.Preempts, abstractPreempt{G: rapid.IntRange(0, len(c.Tests)-1).Draw(t, "g"), Pos: rapid.IntRange(0, 9999).Draw(t, "pos"),
+			All: rapid.IntRange(0, 3).Draw(t, "all") == 0, Choice: rapid.IntRange(0, 3).Draw(t, "choice")})
+	}
+	c.Order = rapid.SliceOfN(rapid.IntRange(0, 3), 0, 6).Draw(t, "order")
+	return c
+}
+
+func classifyShared(c schedCase) ([]string, bool) {
+	cls, _ := classifySched(c)
+	if c.SharedPre > 0 {
+		cls = append(cls, "shared_filename_files_exist_beforehand")
+	} else {
+		cls = append(cls, "shared_filename_from_nothing")
+	}
+	return cls, len(c.Preempts)+len(c.Exact) >= 1
+}
+
+func TestC06_SharedFilename(t *testing.T) {
+	prop[schedCase]{property: "C06", gen: genSchedShared, check: checkSched, classify: classifyShared}.run(t)
+}
+
+var exhaustiveSharedScenarios = []schedCase{
+	{FreshDir: true, Tests: []schedTest{
+		{Name: "TestA", Calls: []schedCall{{Kind: "create", API: "shared", Val: "a1"}, {Kind: "create", API: "shared", Val: "a2"}}},
+		{Name: "TestB", Calls: []schedCall{{Kind: "create", API: "shared", Val: "b1"}}}}},
+	{SharedPre: 1, Tests: []schedTest{
+		{Name: "TestA", Calls: []schedCall{{Kind: "match", API: "shared", Val: sharedSame}}},
+		{Name: "TestA/sub", Calls: []schedCall{{Kind: "match", API: "shared", Val: sharedSame}, {Kind: "match", API: "shared", Val: sharedSame}}}}},
+}
+
+// TestC06_ExhaustiveShared: every schedule with one preemption (every yield) and with two preemptions (quick: at the yields in
+// front of file-system / lock / registry statements; thorough: every yield) of the two fixed shared-Filename scenarios.
+func TestC06_ExhaustiveShared(t *testing.T) {
+	nshards, _ := strconv.Atoi(vhGetenv("VERIF_NSHARDS", "1"))
+	shard, _ := strconv.Atoi(vhGetenv("VERIF_SHARD", "0"))
+	p := prop[schedCase]{property: "C06", check: checkSched, classify: classifyShared}
+	p.enumerate(t, func(yield func(schedCase) bool) {
+		idx := 0
+		for _, base := range exhaustiveSharedScenarios {
+			for first := range base.Tests {
+				sc := base
+				sc.Order = []int{first}
+				dry, _ := runSched(sc, nil, true)
+				type pos struct {
+					g, k int
+					hot  bool
+				}
+				var all []pos
+				for g, sites := range dry.sess.Sites {
+					for k := 1; k <= len(sites)+3; k++ {
+						all = append(all, pos{g, k, k <= len(sites) && siteInteresting(sites[k-1])})
+					}
+				}
+				for _, a := range all {
+					idx++
+					if idx%nshards != shard {
+						continue
+					}
+					c := sc
+					c.Exact = []vsched.Preempt{{G: a.g, K: a.k}}
+					if !yield(c) {
+						return
+					}
+				}
+				for i := 0; i < len(all); i++ {
+					for j := i + 1; j < len(all); j++ {
+						if !tierThorough() && !(all[i].hot && all[j].hot) {
+							continue
+						}
+						idx++
+						if idx%nshards != shard {
+							continue
+						}
+						c := sc
+						c.Exact = []vsched.Preempt{{G: all[i].g, K: all[i].k}, {G: all[j].g, K: all[j].k}}
+						if !yield(c) {
+							return
+						}
+					}
+				}
+			}
+		}
+	})
+}
+
 func TestC03_ConcurrentSlots(t *testing.T) {
 	prop[schedCase]{property: "C03", gen: genSchedCase, check: checkSched, classify: classifySched}.run(t)
 }
